@@ -67,6 +67,7 @@ func init() {
 }
 
 func runC01(c *Ctx, r *Report) {
+	importFoundation(c, r, "C01", "multi-response")
 	r.Rule("C01/strip-whole", "StripANSI returns the escape-sequence pattern's ReplaceAll over its whole argument on every path", 1)
 	checkStripWhole(c, r, "C01/strip-whole")
 	r.Rule("C01/file-lines", "the from-file variants get one command per line of the file (what the device receives is each command followed by one return)", 1)
